@@ -71,3 +71,34 @@ Example tag_eqb_example :
   tag_eqb KCmdline {| m_base := 0; m_bytes := bs1 |} {| t_off := 0; t_meta := Some 2 |}
                    {| m_base := 0; m_bytes := bs2 |} {| t_off := 0; t_meta := Some 2 |} = true.
 Proof. vm_compute. reflexivity. Qed.
+
+(* C16: the clone of a dynamically sized tag compares equal to the original (PartialEq of its type) *)
+Require Import Build CastFacts C16Proofs.
+Lemma clone_is_equal p k img pad c :
+  is_dst k = true -> wf_img img -> len pad >= 8 ->
+  kind_base k <= le (slice img 4 4) -> (le (slice img 4 4) - kind_base k) mod tail_esize k = 0 ->
+  clone_dyn p HTagH (kind_tdesc k) img pad = Val c ->
+  let n := (le (slice img 4 4) - kind_base k) / tail_esize k in
+  tag_eqb k {| m_base := 0; m_bytes := img |} {| t_off := 0; t_meta := Some n |}
+            {| m_base := 0; m_bytes := c |} {| t_off := 0; t_meta := Some n |} = true.
+Proof.
+  intros Hd Hwf Hpad Hb Hdiv Hc n.
+  rewrite (clone_kind p k img pad Hd Hwf Hb Hdiv) in Hc.
+  destruct (clone_generic_equal p img pad c Hwf Hpad Hc) as (_ & Heq & _).
+  pose proof (dst_esize_pos k Hd) as Hes.
+  apply tag_eqb_extent; [reflexivity| |].
+  - intros o w How. cbn [t_off m_bytes]. rewrite !N.add_0_l.
+    assert (Hext : tag_extent k {| t_off := 0; t_meta := Some n |} = le (slice img 4 4)).
+    { unfold tag_extent. cbn [t_meta]. unfold is_dst in Hd. unfold tail_esize in *.
+      pose proof (dst_tail_off k) as Ht. unfold is_dst in Ht.
+      destruct (sd_tail (kind_struct k)) as [[es ea]|]; [|discriminate].
+      rewrite Ht by reflexivity. unfold n. cbn beta iota in *.
+      assert (Hne : es <> 0) by lia.
+      pose proof (proj2 (N.div_exact (le (slice img 4 4) - kind_base k) es Hne) Hdiv) as E.
+      rewrite N.mul_comm in E. rewrite <- E. lia. }
+    rewrite Hext in How.
+    pose proof (slice_slice img 0 (le (slice img 4 4)) o w How) as E1.
+    pose proof (slice_slice c 0 (le (slice img 4 4)) o w How) as E2.
+    rewrite N.add_0_l in E1, E2. rewrite <- E1, <- E2, Heq. reflexivity.
+  - cbn [t_meta]. destruct (sd_tail (kind_struct k)); exact I.
+Qed.
